@@ -123,3 +123,17 @@ Print Assumptions C20_tables_hypotheses_inhabited.
 Theorem C20_kind_predicates_are_translated : forall f p, gen_kind_match f p = kind_match f p.
 Proof. exact gen_kind_match_is_model. Qed.
 Print Assumptions C20_kind_predicates_are_translated.
+
+(* The hypothesis narrow_id of C20_union_distributes is necessary: with an Any-like
+   member that a permissive match converts to the tested type, the faithful model
+   gives a strict superset (known finding C20-any-conversion-superset). *)
+Theorem C20_union_distributes_refuted_without_narrow_id : ~ union_distributes_without_narrow_id.
+Proof. exact union_distributes_refuted_without_narrow_id. Qed.
+Print Assumptions C20_union_distributes_refuted_without_narrow_id.
+
+(* "the other arguments are present and union-free" is satisfiable by a finite
+   variable map (an unbound variable holds the single member 0 in the model) *)
+Example C20_unionfree_env_inhabited :
+  forall v, v <> 0 -> exists m, get [(1, [7]); (2, [5])] v = [m].
+Proof. exact others_unionfree_inhabited. Qed.
+Print Assumptions C20_unionfree_env_inhabited.
